@@ -354,6 +354,29 @@ def c13d_rule_conds(shape: int, kind: int, cat: int, prod: int, rc: int, rp: int
     return fin(ok)
 
 
+def c13d_rule_attribute_num(av: int, isfloat: bool, op: int, cv: int) -> bool:
+    """
+    pre: 0 <= av < 5 and 0 <= cv < 5
+    pre: 0 <= op < 6
+    post: _
+    """
+    # numeric (custom) rule attribute against every comparison operator and value
+    from sigma.processing.conditions.rule import RuleAttributeCondition
+
+    import operator as O
+
+    a, c, o, fl = sel(av, 5), sel(cv, 5), sel(op, 6), selb(isfloat)
+    vals = [-1, 0, 3, 5, 10]
+    with concrete_section():
+        name, fn = [("eq", O.eq), ("ne", O.ne), ("lt", O.lt), ("lte", O.le), ("gt", O.gt), ("gte", O.ge)][o]
+        rule = SigmaRule.from_dict({"title": "t", "score": float(vals[a]) if fl else vals[a], "logsource": {"category": "c"}, "detection": {"sel": {"f": "v"}, "condition": "sel"}})
+        got = RuleAttributeCondition("score", vals[c], name).match(rule)
+        got2 = RuleAttributeCondition("score", str(vals[c]), name).match(rule)
+        want = fn(vals[a], vals[c])
+        ok = got == want and got2 == want
+    return fin(ok)
+
+
 # ---------------------------------------------------------------- e. applied so far
 def c13e_applied(b1: bool, b2: bool, bd: bool, st: bool) -> bool:
     """
@@ -541,6 +564,7 @@ OBLIGATIONS = [
     Ob("c13d_fields", {"LEN": 8}, 3000, tier="thorough"),
     Ob("c13d_values", {}, 300),
     Ob("c13d_rule_conds", {}, 600),
+    Ob("c13d_rule_attribute_num", {}, 300),
     Ob("c13e_applied", {}, 300),
     Ob("c13e_applied_mapping", {}, 300),
     Ob("c13e_nested_state", {}, 300),
